@@ -1,4 +1,5 @@
 import CpModel.Isolation
+import CpModel.IsolationApp
 import CpModel.Gen.C10Tables
 /-!
   C10 - requests are isolated from one another across time and threads.
@@ -425,5 +426,290 @@ example : (run (codeParams demoConf) (State.init demoHeap) (demo.take 5)).servin
 example : observe (codeParams demoConf) (run (codeParams demoConf) (State.init demoHeap) (demo.take 4)) 1 .processors
     = some [4] ∧ (run (codeParams demoConf) (State.init demoHeap) (demo.take 4)).heap (.cls .entProcessors) = [3, 4] := by
   decide
+
+
+/-! ### non-interference, trace form: erase every other thread's mutate ops - thread `t'` cannot tell -/
+
+/-- The history with every mutate op of threads other than `t'` erased. -/
+def purge (t' : Nat) : List Ev → List Ev
+  | [] => []
+  | .mutate t tg op :: es => if t = t' then .mutate t tg op :: purge t' es else purge t' es
+  | e :: es => e :: purge t' es
+
+/-- Everything thread `t'` can see: its serving entry, the serving attributes, every attribute's contents. -/
+def view (p : Params) (st : State) (t' : Nat) : Option Nat × List Nat × (Slot → Option (List Nat)) :=
+  (st.serving (key p.lc t'), st.sattrs (key p.lc t'), fun s => observe p st t' s)
+
+/-- Simulation relation between the full run and the purged run, for observer `t'`. -/
+structure Sim (p : Params) (t' : Nat) (st st' : State) : Prop where
+  next : st.next = st'.next
+  serving : st.serving = st'.serving
+  sattrs : st.sattrs (key p.lc t') = st'.sattrs (key p.lc t')
+  cls : ∀ c, st.heap (.cls c) = st'.heap (.cls c)
+  own : ∀ rid s, (st.next ≤ rid ∨ st.serving (key p.lc t') = some rid) → st.heap (.obj rid s) = st'.heap (.obj rid s)
+
+theorem sim_view {p : Params} (hg : Good p) {t' : Nat} {st st' : State} (h : Sim p t' st st') :
+    view p st t' = view p st' t' := by
+  unfold view
+  rw [h.serving, h.sattrs]
+  congr 2
+  funext s
+  simp only [observe, target, ← h.serving]
+  cases hs : st.serving (key p.lc t') with
+  | none =>
+    cases p.dflt s with
+    | none => rfl
+    | some c => simp [h.cls c]
+  | some rid =>
+    obtain ⟨s', k, hc, _⟩ := cellOf_obj hg.tbl rid s
+    simp [hc, h.own rid s' (Or.inr hs)]
+
+theorem step_mut_some (p : Params) (st : State) (t : Nat) (s : Slot) (op : Op) (rid : Nat) (s' : Slot)
+    (hs : st.serving (key p.lc t) = some rid) (hc : cellOf p.tbl rid s = .obj rid s') :
+    step p st (.mutate t (.slot s) op) =
+      { st with heap := hupd st.heap (.obj rid s') (op.apply (st.heap (.obj rid s'))) } := by
+  simp [step, target, hs, hc]
+
+theorem step_mut_none_none (p : Params) (st : State) (t : Nat) (s : Slot) (op : Op)
+    (hs : st.serving (key p.lc t) = none) (hd : p.dflt s = none) :
+    step p st (.mutate t (.slot s) op) = st := by
+  simp [step, target, hs, hd]
+
+theorem step_mut_none_some (p : Params) (st : State) (t : Nat) (s : Slot) (op : Op) (c : ClassCell)
+    (hs : st.serving (key p.lc t) = none) (hd : p.dflt s = some c) :
+    step p st (.mutate t (.slot s) op) =
+      { st with heap := hupd st.heap (.cls c) (op.apply (st.heap (.cls c))) } := by
+  simp [step, target, hs, hd]
+
+theorem sim_step_both {p : Params} (hg : Good p) {t' : Nat} {st st' : State} (_hi : Inv st)
+    (h : Sim p t' st st') (e : Ev)
+    (he : match e with | .mutate t _ _ => t = t' | _ => True) :
+    Sim p t' (step p st e) (step p st' e) := by
+  cases e with
+  | begin t u =>
+    have hb : ∀ a, (match a with
+        | .cls _ => True
+        | .obj rid _ => st.next ≤ rid ∨ st.serving (key p.lc t') = some rid) →
+        build p st.heap st.next u a = build p st'.heap st'.next u a := by
+      intro a ha
+      cases a with
+      | cls c => simp [build_cls hg.tbl, h.cls c]
+      | obj rid s =>
+        rw [← h.next]
+        by_cases hr : rid = st.next
+        · subst hr
+          cases hts : p.tbl s with
+          | fresh k =>
+            rw [build_obj_fresh p _ _ u s k hts, build_obj_fresh p _ _ u s k hts]
+            cases k with
+            | none => rfl
+            | some c => simp [copyOf, h.cls c]
+          | aliasClass c => simp [build, hts, h.own _ s (Or.inl (Nat.le_refl _))]
+          | aliasSlot s2 => simp [build, hts, h.own _ s (Or.inl (Nat.le_refl _))]
+        · rw [build_obj_ne p _ u s hr, build_obj_ne p _ u s hr]
+          exact h.own rid s ha
+    constructor
+    · simp [step, h.next]
+    · simp [step, h.serving, h.next]
+    · simp [step, h.sattrs]
+    · intro c; simpa [step] using hb (.cls c) trivial
+    · intro rid s hr
+      simp only [step] at hr ⊢
+      apply hb (.obj rid s)
+      rcases hr with hr | hr
+      · exact Or.inl (by omega)
+      · by_cases hk : key p.lc t' = key p.lc t
+        · rw [hk] at hr; simp at hr; exact Or.inl (by omega)
+        · rw [upd_ne _ _ hk] at hr; exact Or.inr hr
+  | done t =>
+    simp only [step, hg.rc, if_true]
+    constructor
+    · exact h.next
+    · simp [h.serving]
+    · simp only
+      by_cases hk : key p.lc t' = key p.lc t
+      · rw [hk]; simp
+      · rw [upd_ne _ _ hk, upd_ne _ _ hk]; exact h.sattrs
+    · exact h.cls
+    · intro rid s hr
+      simp only at hr
+      apply h.own rid s
+      rcases hr with hr | hr
+      · exact Or.inl hr
+      · by_cases hk : key p.lc t' = key p.lc t
+        · rw [hk] at hr; simp at hr
+        · rw [upd_ne _ _ hk] at hr; exact Or.inr hr
+  | mutate t tg op =>
+    simp only at he
+    subst he
+    cases tg with
+    | serving =>
+      simp only [step]
+      constructor
+      · exact h.next
+      · exact h.serving
+      · simp [h.sattrs]
+      · exact h.cls
+      · exact h.own
+    | slot s =>
+      cases hs : st.serving (key p.lc t) with
+      | some rid =>
+        obtain ⟨s', k, hc, _⟩ := cellOf_obj hg.tbl rid s
+        have hs' : st'.serving (key p.lc t) = some rid := by rw [← h.serving]; exact hs
+        rw [step_mut_some p st t s op rid s' hs hc, step_mut_some p st' t s op rid s' hs' hc]
+        have heq := h.own rid s' (Or.inr hs)
+        refine ⟨h.next, h.serving, h.sattrs, ?_, ?_⟩
+        · intro c
+          dsimp only
+          simp [hupd, h.cls c]
+        · intro rid2 s2 hr
+          dsimp only
+          by_cases ha : (Addr.obj rid2 s2) = Addr.obj rid s'
+          · simp [hupd, ha, heq]
+          · rw [hupd_ne _ _ ha, hupd_ne _ _ ha]; exact h.own rid2 s2 hr
+      | none =>
+        have hs' : st'.serving (key p.lc t) = none := by rw [← h.serving]; exact hs
+        cases hd : p.dflt s with
+        | none =>
+          rw [step_mut_none_none p st t s op hs hd, step_mut_none_none p st' t s op hs' hd]; exact h
+        | some c =>
+          rw [step_mut_none_some p st t s op c hs hd, step_mut_none_some p st' t s op c hs' hd]
+          refine ⟨h.next, h.serving, h.sattrs, ?_, ?_⟩
+          · intro c2
+            dsimp only
+            by_cases hc : c2 = c
+            · subst hc; simp [hupd, h.cls]
+            · rw [hupd_ne _ _ (by simp [hc]), hupd_ne _ _ (by simp [hc])]; exact h.cls c2
+          · intro rid2 s2 hr
+            dsimp only
+            rw [hupd_ne _ _ (by simp), hupd_ne _ _ (by simp)]; exact h.own rid2 s2 hr
+
+theorem sim_step_left {p : Params} (hg : Good p) {t' : Nat} {st st' : State} (hi : Inv st)
+    (h : Sim p t' st st') (t : Nat) (ht : t ≠ t') (tg : Target) (op : Op)
+    (hl : st.serving (key p.lc t) ≠ none) :
+    Sim p t' (step p st (.mutate t tg op)) st' := by
+  have hkt : key p.lc t ≠ key p.lc t' := by simpa [key_tl hg.tl] using ht
+  cases tg with
+  | serving =>
+    simp only [step]
+    exact ⟨h.next, h.serving, by simp only; rw [upd_ne _ _ (Ne.symm hkt)]; exact h.sattrs, h.cls, h.own⟩
+  | slot s =>
+    simp only [step, target]
+    cases hs : st.serving (key p.lc t) with
+    | none => exact absurd hs hl
+    | some rid =>
+      obtain ⟨s', k, hc, _⟩ := cellOf_obj hg.tbl rid s
+      simp only [hc]
+      refine ⟨h.next, h.serving, h.sattrs, ?_, ?_⟩
+      · intro c; simp only; rw [hupd_ne _ _ (by simp)]; exact h.cls c
+      · intro rid2 s2 hr
+        simp only at hr ⊢
+        have hne : rid2 ≠ rid := by
+          rcases hr with hr | hr
+          · have := hi.bound _ _ hs; omega
+          · intro heq; subst heq; exact hkt (hi.inj _ _ _ hs hr)
+        rw [hupd_ne _ _ (by simp [hne])]
+        exact h.own rid2 s2 hr
+
+theorem sim_run {p : Params} (hg : Good p) (t' : Nat) :
+    ∀ (evs : List Ev) (st st' : State), Inv st → WF p st evs → Sim p t' st st' →
+      Sim p t' (run p st evs) (run p st' (purge t' evs)) := by
+  intro evs
+  induction evs with
+  | nil => intro st st' _ _ h; exact h
+  | cons e es ih =>
+    intro st st' hi hwf h
+    obtain ⟨hl, hwf'⟩ := WF_cons.mp hwf
+    have hi' := inv_step p st e hi
+    cases e with
+    | begin t u => exact ih _ _ hi' hwf' (sim_step_both hg hi h _ trivial)
+    | done t => exact ih _ _ hi' hwf' (sim_step_both hg hi h _ trivial)
+    | mutate t tg op =>
+      simp only [purge]
+      by_cases ht : t = t'
+      · simp only [ht, if_true, run]
+        subst ht
+        exact ih _ _ hi' hwf' (sim_step_both hg hi h _ rfl)
+      · simp only [ht, if_false]
+        exact ih _ _ hi' hwf' (sim_step_left hg hi h t ht tg op hl)
+
+/-- **C10_noninterference_trace.** For every well-formed interleaved history and every thread `t'`: what `t'`
+    can see at the end (its serving entry, serving attributes, contents of every attribute of its request)
+    is exactly what it would see had no other thread's request performed any of its mutate ops. -/
+theorem C10_noninterference_trace {p : Params} (hg : Good p) (h0 : Heap) (evs : List Ev)
+    (hwf : WF p (State.init h0) evs) (t' : Nat) :
+    view p (run p (State.init h0) evs) t' = view p (run p (State.init h0) (purge t' evs)) t' :=
+  sim_view hg (sim_run hg t' evs _ _ (inv_init h0) hwf
+    ⟨rfl, rfl, rfl, fun _ => rfl, fun _ _ _ => rfl⟩)
+
+theorem C10_noninterference_trace_code (conf : Conf) (h0 : Heap) (evs : List Ev)
+    (hwf : WF (codeParams conf) (State.init h0) evs) (t' : Nat) :
+    view (codeParams conf) (run (codeParams conf) (State.init h0) evs) t'
+      = view (codeParams conf) (run (codeParams conf) (State.init h0) (purge t' evs)) t' :=
+  C10_noninterference_trace (code_good conf) h0 evs hwf t'
+
+/-- purging really removes something: in `demo`, thread 1's view ignores thread 0's ops -/
+example : purge 1 demo = [.begin 0 1, .begin 1 2, .mutate 1 (.slot .processors) (.del 3),
+    .mutate 1 .serving (.add 9), .done 0, .begin 0 2, .done 1, .done 0] := by decide
+
+
+/-! ### applications: per-application collections are isolated from each other and from class level -/
+
+/-- A write to an isolated attribute of application `aid` (merge of its config, `log.`/`wsgi.` entries,
+    middleware appended to its pipeline) changes no class-level cell and no cell of any other application. -/
+theorem C10_app_write_isolated (tbl : AppTable) (st : AState) (aid : Nat) (s : AppSlot) (op : Op)
+    (hs : s.isolated tbl = true) :
+    (∀ c, (astep tbl st (.write aid s op)).heap (.cls c) = st.heap (.cls c)) ∧
+    (∀ aid' s', aid' ≠ aid → (astep tbl st (.write aid s op)).heap (.app aid' s') = st.heap (.app aid' s')) := by
+  have hc : appCell tbl aid s = .app aid s := by
+    unfold appCell
+    cases hts : tbl s with
+    | fresh k => rfl
+    | aliasClass c => simp [AppSlot.isolated, hts] at hs
+  constructor
+  · intro c; simp [astep, hc, ahupd]
+  · intro aid' s' hne; simp [astep, hc, ahupd, hne]
+
+/-- A new application starts from the class-level contents, whatever other applications were configured with:
+    class-level cells never change under writes to isolated attributes. -/
+theorem C10_app_class_invariant (tbl : AppTable) :
+    ∀ (evs : List AEv) (st : AState),
+      (∀ e ∈ evs, match e with | .write _ s _ => s.isolated tbl = true | .newApp => True) →
+      ∀ c, (arun tbl st evs).heap (.cls c) = st.heap (.cls c) := by
+  intro evs
+  induction evs with
+  | nil => intro st _ c; rfl
+  | cons e es ih =>
+    intro st h c
+    simp only [arun]
+    rw [ih _ (fun e' he' => h e' (List.mem_cons_of_mem _ he')) c]
+    have he := h e (List.mem_cons_self ..)
+    cases e with
+    | newApp => simp [astep, abuild]
+    | write aid s op => exact (C10_app_write_isolated tbl st aid s op he).1 c
+
+/-- An aliased application attribute is shared by every application (as `Application.toolboxes` is). -/
+theorem C10_app_alias_shared (tbl : AppTable) (s : AppSlot) (c : ClassCell) (h : tbl s = .aliasClass c)
+    (st : AState) (aid aid' : Nat) (x : Nat) :
+    x ∈ (astep tbl st (.write aid s (.add x))).heap (appCell tbl aid' s) := by
+  simp [astep, appCell, h, ahupd, Op.apply]
+
+/-- Obligation on the code: `config`, `namespaces`, the WSGI `pipeline` and `config`, and the log manager are
+    per application. -/
+theorem gen_app_table_ok :
+    ∀ s ∈ [AppSlot.config, .namespaces, .pipeline, .wsgiConfig, .log],
+      s.isolated CpModel.Gen.C10.appTable = true := by decide
+
+theorem C10_app_write_isolated_code (st : AState) (aid : Nat) (s : AppSlot) (op : Op)
+    (hs : s ∈ [AppSlot.config, .namespaces, .pipeline, .wsgiConfig, .log]) :
+    (∀ c, (astep CpModel.Gen.C10.appTable st (.write aid s op)).heap (.cls c) = st.heap (.cls c)) ∧
+    (∀ aid' s', aid' ≠ aid →
+      (astep CpModel.Gen.C10.appTable st (.write aid s op)).heap (.app aid' s') = st.heap (.app aid' s')) :=
+  C10_app_write_isolated _ st aid s op (gen_app_table_ok s hs)
+
+/-- Observed on the unchanged tree (and outside the property's scope, which is about what *requests* set):
+    `Application.toolboxes` is ONE class-level dict; registering a toolbox on one application registers it on all. -/
+theorem C10_app_toolboxes_shared_code :
+    CpModel.Gen.C10.appTable .toolboxes = .aliasClass .appToolboxes := by decide
 
 end CpProofs.C10
